@@ -120,6 +120,8 @@ class Evaluator:
     def truth(self, v):
         if isinstance(v, bool):
             return v
+        if isinstance(v, tuple) and v and v[0] == "enum":
+            return bool(v[2])
         if v is None:
             return False
         if isinstance(v, int):
